@@ -115,9 +115,8 @@ class FindIdentifiers(_ast_util.NodeVisitor):
 
     def visit_ListComp(self, node):
         if self.in_function:
-            for comp in node.generators:
-                self.visit(comp.target)
-                self.visit(comp.iter)
+            self._visit_generators(node)
+            self.visit(node.elt)
         else:
             self.generic_visit(node)
 
@@ -125,11 +124,20 @@ class FindIdentifiers(_ast_util.NodeVisitor):
 
     def visit_DictComp(self, node):
         if self.in_function:
-            for comp in node.generators:
-                self.visit(comp.target)
-                self.visit(comp.iter)
+            self._visit_generators(node)
+            self.visit(node.key)
+            self.visit(node.value)
         else:
             self.generic_visit(node)
+
+    def _visit_generators(self, node):
+        # the loop variables are bound before the conditions and the
+        # element expression, which may use names from outside as well
+        for comp in node.generators:
+            self.visit(comp.iter)
+            self.visit(comp.target)
+            for condition in comp.ifs:
+                self.visit(condition)
 
     def _expand_tuples(self, args):
         for arg in args:
